@@ -287,4 +287,45 @@ theorem dftN_butterfly {ω : K} {h : ℕ} (hh : 0 < h) (hω : IsPrimitiveRoot ω
   rw [dftN_two_mul, dftN_add_period h1, dftN_add_period h1, pow_add, pow_half_eq_neg_one hh hω]
   ring
 
+/-! ### inversion for `ℕ`-indexed sequences -/
+
+theorem idftN_dftN {ω : K} {n : ℕ} (h : IsPrimitiveRoot ω n) (hn : (n : K) ≠ 0) (u : ℕ → K)
+    {j : ℕ} (hj : j < n) : (n : K)⁻¹ * dftN ω⁻¹ n (fun i => dftN ω n u i) j = u j := by
+  have h1 := congrFun (idft_dft h hn (fun k : Fin n => u k)) ⟨j, hj⟩
+  unfold idftF at h1
+  have h2 : dftF ω (fun k : Fin n => u k) = fun i : Fin n => dftN ω n u i := by
+    funext i; exact dftF_eq_dftN ω u i
+  rw [h2, dftF_eq_dftN ω⁻¹ (fun i => dftN ω n u i) ⟨j, hj⟩] at h1
+  exact h1
+
+theorem dftN_idftN {ω : K} {n : ℕ} (h : IsPrimitiveRoot ω n) (hn : (n : K) ≠ 0) (u : ℕ → K)
+    {j : ℕ} (hj : j < n) : dftN ω n (fun i => (n : K)⁻¹ * dftN ω⁻¹ n u i) j = u j := by
+  have h1 := congrFun (dft_idft h hn (fun k : Fin n => u k)) ⟨j, hj⟩
+  have h2 : idftF ω (fun k : Fin n => u k) = fun i : Fin n => (n : K)⁻¹ * dftN ω⁻¹ n u i := by
+    funext i; unfold idftF; rw [dftF_eq_dftN ω⁻¹ u i]
+  rw [h2, dftF_eq_dftN ω (fun i => (n : K)⁻¹ * dftN ω⁻¹ n u i) ⟨j, hj⟩] at h1
+  exact h1
+
+/-- trailing zero coefficients do not change the polynomial -/
+theorem polyN_extend {u : ℕ → K} {len N : ℕ} (hN : len ≤ N) (hu : ∀ j, len ≤ j → u j = 0) :
+    polyN N u = polyN len u := by
+  unfold polyN
+  symm
+  apply sum_subset (range_subset_range.mpr hN)
+  intro j _ hj
+  rw [hu j (by simpa using hj)]; simp
+
+theorem polyN_congr {u v : ℕ → K} {n : ℕ} (h : ∀ j, j < n → u j = v j) : polyN n u = polyN n v := by
+  unfold polyN
+  apply sum_congr rfl; intro j hj
+  rw [h j (mem_range.mp hj)]
+
+/-- scaling coefficient `j` by `g^j` is substitution `X ↦ g·X` -/
+theorem eval_polyN_scale (g x : K) (n : ℕ) (u : ℕ → K) :
+    (polyN n (fun j => u j * g ^ j)).eval x = (polyN n u).eval (g * x) := by
+  unfold polyN
+  rw [eval_finsetSum, eval_finsetSum]
+  apply sum_congr rfl; intro j _
+  simp [mul_pow]; ring
+
 end Plonk.FftMath
